@@ -31,6 +31,29 @@ Supported subset (purely functional, over Z / bool / list / option Z):
                the method calls `c.minimum_size_of_object()` / `c.is_atom()` on
                a class descriptor (a pair (min size, is_atom)).
 
+Extensions of session 5 (DESIGN.md 10.9), all fail closed:
+
+  dictionaries with INTEGER keys (parameter names, labels) = insertion-ordered
+  association lists `list (Z * V)`: `d[k]` (py_dget, KeyError -> default, outside the
+  preconditions), `k in d`, `d.get(k, None)` (py_dfind), `.items()/.values()/.keys()`,
+  iteration over a dictionary (= its keys), `{k: v for ...}` and `dict(pairs)` built by
+  successive `d[k] = v` (py_dict_of: a repeated key keeps its first position and last
+  value), `{**d}`; string constants only where the target maps them to integer keys.
+  `x in xs` / `not in`; `bool(xs)`; truthiness of tuples inside all()/any(); chained
+  arithmetic comparisons (opt-in per target); `sorted(xs, key=lambda x: e)` (stable);
+  min/max of one sequence, max of tuples (lexicographic, first maximal element wins);
+  `set(xs)`; `itertools.product(*[...])`; `p[0]` / `p[1]` on pairs; empty displays
+  unified with the other branch / operand.
+  kinds  t_imperative         locals, `xs[i] = e`, `xs[i] += e`, `d[k] = e`, nested `for`
+                              (-> fold_left over the variables the loop assigns, which must
+                              exist before it), `if` (-> the variables either branch
+                              assigns), `assert` (-> flag ok_, result option), final return
+         t_closure_generator  a generator defining ONE nested recursive generator closed over
+                              attributes of self (`**kwargs`, recursive call with `**d`)
+         t_local              ONE expression of a stateful method, located structurally
+                              (see its docstring); the control flow around it is NOT tied
+         t_classconst         a class-level constant tuple of enumeration members
+
 An option-typed expression may be used as an integer only where Python's
 control flow has just established `is not None` for the textually identical
 expression (right operand of `X is None or ...`, of `X is not None and ...`,
@@ -76,6 +99,34 @@ def TProd(a, b):
     return ("prod", a, b)
 
 
+def TDict(v):
+    """dict with integer keys (parameter names, labels): an insertion-ordered
+    association list `list (Z * V)`"""
+    return ("dict", v)
+
+
+EMPTY = ("list", None)   # the empty display `()` / `[]` before unification
+
+
+def is_list(t):
+    return isinstance(t, tuple) and t[0] == "list"
+
+
+def is_dict(t):
+    return isinstance(t, tuple) and t[0] == "dict"
+
+
+def unify(a, b):
+    """least common type of two branch types (only EMPTY is flexible)"""
+    if a == b:
+        return a
+    if a == EMPTY and is_list(b):
+        return b
+    if b == EMPTY and is_list(a):
+        return a
+    return None
+
+
 def ty_str(t):
     if t == Z:
         return "Z"
@@ -84,11 +135,15 @@ def ty_str(t):
     if t == CLS:
         return "(Z * bool)"
     if isinstance(t, tuple) and t[0] == "list":
+        if t[1] is None:
+            raise Unsupported("the element type of an empty display could not be determined")
         return "list (%s)" % ty_str(t[1]) if not _atomic(t[1]) else "list %s" % ty_str(t[1])
     if isinstance(t, tuple) and t[0] == "option":
         return "option (%s)" % ty_str(t[1]) if not _atomic(t[1]) else "option %s" % ty_str(t[1])
     if isinstance(t, tuple) and t[0] == "prod":
         return "(%s * %s)" % (ty_str(t[1]), ty_str(t[2]))
+    if isinstance(t, tuple) and t[0] == "dict":
+        return "list (Z * %s)" % ty_str(t[1]) if _atomic(t[1]) else "list (Z * (%s))" % ty_str(t[1])
     raise Unsupported("no Gallina type for %r" % (t,))
 
 
@@ -107,6 +162,10 @@ def default_of(t):
         return "[]"
     if isinstance(t, tuple) and t[0] == "option":
         return "None"
+    if isinstance(t, tuple) and t[0] == "dict":
+        return "[]"
+    if isinstance(t, tuple) and t[0] == "prod":
+        return "(%s, %s)" % (default_of(t[1]), default_of(t[2]))
     raise Unsupported("no default value for type %r" % (t,))
 
 
@@ -131,11 +190,16 @@ def src(node):
 class Tr:
     """Translator for one target.  env: python name -> (gallina text, type)."""
 
-    def __init__(self, bind=None, rec=None, none_elem=None):
+    def __init__(self, bind=None, rec=None, none_elem=None, chained=False, strings=None):
+        self.chained = chained          # accept `a <= b <= c`
+        self.strings = strings or {}    # string constant -> integer key (parameter names)
         self.bind = bind or {}          # unparse text -> (gallina text, type)
         self.rec = rec                  # (python function name, gallina callee, elem type) for generators
         self.used = set()               # bound parameters actually used
         self.none_elem = none_elem      # type given to a bare `None` comprehension element (from the target spec)
+        self.skip = {}                  # glue statements (imperative blocks): text -> times seen
+        self.params_ro = set()          # parameters an imperative block must not assign
+        self.imp_ret = None             # type of the returned expression of an imperative block
 
     # -- helpers
     def as_int(self, node, env, narrowed):
@@ -176,6 +240,15 @@ class Tr:
             return "'(%s, %s)" % tuple(names), env
         raise Unsupported("unsupported loop target `%s` for elements of type %s" % (src(target), elem_ty))
 
+    def iterable(self, node, env, narrowed=frozenset()):
+        """what a `for` runs over: a sequence, or a dictionary (= its keys, in insertion order)"""
+        it, ity = self.expr(node, env, narrowed)
+        if is_dict(ity):
+            return "(map fst %s)" % it, TList(Z)
+        if not is_list(ity) or ity == EMPTY:
+            raise Unsupported("cannot iterate over `%s` of type %s" % (src(node), ity))
+        return it, ity
+
     def comprehension(self, node, env, narrowed):
         """(elt for target in iter if c...) -> (text, list type)"""
         if len(node.generators) != 1:
@@ -183,9 +256,7 @@ class Tr:
         g = node.generators[0]
         if g.is_async:
             raise Unsupported("async comprehension")
-        it, ity = self.expr(g.iter, env, narrowed)
-        if not (isinstance(ity, tuple) and ity[0] == "list"):
-            raise Unsupported("cannot iterate over `%s` of type %s" % (src(g.iter), ity))
+        it, ity = self.iterable(g.iter, env, narrowed)
         pat, env2 = self.binder(g.target, ity[1], env)
         cur = it
         for c in g.ifs:
@@ -196,6 +267,25 @@ class Tr:
                 raise Unsupported("comprehension of bare None")
             et, ety = "None", self.none_elem
         return "(map (fun %s => %s) %s)" % (pat, et, cur), TList(ety), (pat, env2, cur)
+
+    def dictcomp(self, node, env, narrowed):
+        """{k: v for target in iter if c...}: built by successive `d[k] = v`
+        (py_dict_of), so a repeated key keeps its first position and last value"""
+        if len(node.generators) != 1:
+            raise Unsupported("only one `for` per comprehension: `%s`" % src(node))
+        g = node.generators[0]
+        if g.is_async:
+            raise Unsupported("async comprehension")
+        it, ity = self.iterable(g.iter, env, narrowed)
+        pat, env2 = self.binder(g.target, ity[1], env)
+        cur = it
+        for c in g.ifs:
+            cur = "(filter (fun %s => %s) %s)" % (pat, self.as_bool(c, env2, narrowed), cur)
+        kt = self.as_int(node.key, env2, narrowed)
+        vt, vty = self.expr(node.value, env2, narrowed)
+        if vty in (NONE, EMPTY):
+            raise Unsupported("dictionary comprehension with values of undetermined type")
+        return "(py_dict_of (map (fun %s => (%s, %s)) %s))" % (pat, kt, vt, cur), TDict(vty)
 
     # -- main
     def expr(self, node, env, narrowed=frozenset()):
@@ -210,6 +300,9 @@ class Tr:
                 return ("true" if node.value else "false"), BOOL
             if isinstance(node.value, int):
                 return ("%d" % node.value if node.value >= 0 else "(%d)" % node.value), Z
+            if isinstance(node.value, str) and node.value in self.strings:
+                v = self.strings[node.value]
+                return ("%d" % v if v >= 0 else "(%d)" % v), Z
             raise Unsupported("constant `%s`" % key)
         if isinstance(node, ast.Name):
             if node.id in env:
@@ -226,10 +319,10 @@ class Tr:
                 lt, lty = self.expr(node.left, env, narrowed)
                 rt, rty = self.expr(node.right, env, narrowed)
                 if isinstance(node.op, ast.Add) and isinstance(lty, tuple) and lty[0] == "list":
-                    if lty != rty:
+                    if unify(lty, rty) is None:
                         raise Unsupported("`+` of sequences with different element types in `%s`" % key)
-                    return "(%s ++ %s)" % (lt, rt), lty
-                if isinstance(node.op, ast.Mult) and isinstance(lty, tuple) and lty[0] == "list" and rty == Z:
+                    return "(%s ++ %s)" % (lt, rt), unify(lty, rty)
+                if isinstance(node.op, ast.Mult) and isinstance(lty, tuple) and lty[0] == "list" and lty != EMPTY and rty == Z:
                     # xs * n: n copies of xs (none when n <= 0), as in Python
                     return "(py_list_mul %s %s)" % (lt, rt), lty
                 a = self.as_int(node.left, env, narrowed)
@@ -253,8 +346,29 @@ class Tr:
             return "(" + op.join(parts) + ")", BOOL
         if isinstance(node, ast.Compare):
             if len(node.ops) != 1:
-                raise Unsupported("chained comparison `%s`" % key)
+                # a <= b <= c: every operand is pure and evaluated at most once in
+                # Python; only arithmetic comparisons may be chained (opt-in per target)
+                if not self.chained or not all(
+                    isinstance(o, (ast.Lt, ast.LtE, ast.Gt, ast.GtE, ast.Eq, ast.NotEq)) for o in node.ops
+                ):
+                    raise Unsupported("chained comparison `%s`" % key)
+                operands = [node.left] + list(node.comparators)
+                parts = []
+                for o, l, r in zip(node.ops, operands, operands[1:]):
+                    one = ast.Compare(left=l, ops=[o], comparators=[r])
+                    parts.append(self.as_bool(one, env, narrowed))
+                return "(" + " && ".join(parts) + ")", BOOL
             op, right = node.ops[0], node.comparators[0]
+            if isinstance(op, (ast.In, ast.NotIn)):
+                a = self.as_int(node.left, env, narrowed)
+                rt, rty = self.expr(right, env, narrowed)
+                if rty == TList(Z):
+                    t = "(py_in %s %s)" % (a, rt)
+                elif is_dict(rty):
+                    t = "(py_dmem %s %s)" % (rt, a)
+                else:
+                    raise Unsupported("`in` on %s in `%s`" % (rty, key))
+                return (t if isinstance(op, ast.In) else "(negb %s)" % t), BOOL
             if isinstance(op, (ast.Is, ast.IsNot)):
                 if not (isinstance(right, ast.Constant) and right.value is None):
                     raise Unsupported("`is` is only supported against None: `%s`" % key)
@@ -300,23 +414,47 @@ class Tr:
                 ot, oty = "None", (bty if isinstance(bty, tuple) and bty[0] == "option" else TOpt(bty))
                 if not (isinstance(bty, tuple) and bty[0] == "option"):
                     bt, bty = "(Some %s)" % bt, oty
-            if bty != oty:
+            if unify(bty, oty) is None:
                 raise Unsupported("branches of `%s` have different types %s / %s" % (key, bty, oty))
-            return "(if %s then %s else %s)" % (c, bt, ot), bty
+            return "(if %s then %s else %s)" % (c, bt, ot), unify(bty, oty)
         if isinstance(node, (ast.Tuple, ast.List)):
             if not node.elts:
-                raise Unsupported("empty tuple display (element type unknown)")
+                # `()` / `[]`: the element type comes from the context (other branch of a
+                # conditional, other operand of +); fails closed where there is none
+                return "[]", EMPTY
+            if any(isinstance(e, ast.Starred) for e in node.elts):
+                raise Unsupported("starred element in `%s`" % key)
             parts = [self.expr(e, env, narrowed) for e in node.elts]
             tys = {p[1] for p in parts}
             if len(tys) != 1 or NONE in tys:
                 raise Unsupported("heterogeneous tuple `%s`" % key)
             return "[" + "; ".join(p[0] for p in parts) + "]", TList(parts[0][1])
+        if isinstance(node, ast.DictComp):
+            return self.dictcomp(node, env, narrowed)
+        if isinstance(node, ast.Dict):
+            # {**d}: a copy
+            if len(node.keys) == 1 and node.keys[0] is None:
+                t, ty = self.expr(node.values[0], env, narrowed)
+                if not is_dict(ty):
+                    raise Unsupported("`%s`: ** of a non-dictionary" % key)
+                return t, ty
+            raise Unsupported("dictionary display `%s`" % key)
         if isinstance(node, (ast.GeneratorExp, ast.ListComp)):
             t, ty, _ = self.comprehension(node, env, narrowed)
             return t, ty
         if isinstance(node, ast.Subscript):
             vt, vty = self.expr(node.value, env, narrowed)
-            if not (isinstance(vty, tuple) and vty[0] == "list"):
+            if isinstance(vty, tuple) and vty[0] == "prod":
+                c = node.slice
+                if isinstance(c, ast.Constant) and c.value in (0, 1) and not isinstance(c.value, bool):
+                    return "(%s %s)" % ("fst" if c.value == 0 else "snd", vt), vty[1 + c.value]
+                raise Unsupported("a pair can only be indexed by the literals 0 and 1: `%s`" % key)
+            if is_dict(vty):
+                if isinstance(node.slice, ast.Slice):
+                    raise Unsupported("slice of a dictionary `%s`" % key)
+                k = self.as_int(node.slice, env, narrowed)
+                return "(py_dget %s %s %s)" % (default_of(vty[1]), vt, k), vty[1]
+            if not (isinstance(vty, tuple) and vty[0] == "list") or vty == EMPTY:
                 raise Unsupported("subscript of non-sequence `%s`" % key)
             sl = node.slice
             if isinstance(sl, ast.Slice):
@@ -351,32 +489,108 @@ class Tr:
 
     def call(self, node, env, narrowed):
         key = src(node)
+        f = node.func
+        # sorted(xs, key=lambda x: e): Python's sort is stable; py_sorted_by is a stable
+        # insertion sort on the integer key
+        if (
+            isinstance(f, ast.Name) and f.id == "sorted" and f.id not in env and len(node.args) == 1
+            and len(node.keywords) == 1 and node.keywords[0].arg == "key"
+            and isinstance(node.keywords[0].value, ast.Lambda)
+        ):
+            lam = node.keywords[0].value
+            la = lam.args
+            if la.vararg or la.kwarg or la.kwonlyargs or la.posonlyargs or la.defaults or len(la.args) != 1:
+                raise Unsupported("sort key `%s`" % src(lam))
+            t, ty = self.expr(node.args[0], env, narrowed)
+            if not is_list(ty) or ty == EMPTY:
+                raise Unsupported("sorted() of %s" % (ty,))
+            x = coq_name(la.args[0].arg)
+            env2 = dict(env)
+            env2[la.args[0].arg] = (x, ty[1])
+            kt = self.as_int(lam.body, env2, narrowed)
+            return "(py_sorted_by (fun (%s : %s) => %s) %s)" % (x, ty_str(ty[1]), kt, t), ty
+        if self.rec and isinstance(f, ast.Name) and f.id == self.rec[0] and f.id not in env:
+            # positional arguments, then `**d` for the callee's **kwargs parameter (if it has one)
+            want = list(self.rec[3])
+            kw = len(self.rec) > 4 and self.rec[4]
+            n_pos = len(want) - (1 if kw else 0)
+            if len(node.args) != n_pos or any(isinstance(a, ast.Starred) for a in node.args):
+                raise Unsupported("recursive call with wrong arity `%s`" % key)
+            actual = list(node.args)
+            if kw:
+                if len(node.keywords) != 1 or node.keywords[0].arg is not None:
+                    raise Unsupported("recursive call must pass exactly `**d` besides its positional arguments: `%s`" % key)
+                actual.append(node.keywords[0].value)
+            elif node.keywords:
+                raise Unsupported("keyword arguments in `%s`" % key)
+            parts = []
+            for a, wty in zip(actual, want):
+                t, ty = self.expr(a, env, narrowed)
+                if ty != wty:
+                    raise Unsupported("recursive call argument `%s` has type %s, expected %s" % (src(a), ty, wty))
+                parts.append(t)
+            return "(%s %s)" % (self.rec[1], " ".join(parts)), TList(self.rec[2])
         if node.keywords:
             raise Unsupported("keyword arguments in `%s`" % key)
-        f = node.func
-        # methods of class descriptors
+        # d.get(k, None) -> an Optional
+        if (isinstance(f, ast.Attribute) and f.attr == "get" and len(node.args) == 2
+                and isinstance(node.args[1], ast.Constant) and node.args[1].value is None):
+            vt, vty = self.expr(f.value, env, narrowed)
+            if not is_dict(vty):
+                raise Unsupported("method call `%s`" % key)
+            return "(py_dfind %s %s)" % (vt, self.as_int(node.args[0], env, narrowed)), TOpt(vty[1])
+        # methods of class descriptors and of dictionaries
         if isinstance(f, ast.Attribute) and not node.args:
             vt, vty = self.expr(f.value, env, narrowed)
             if vty == CLS and f.attr == "minimum_size_of_object":
                 return "(fst %s)" % vt, Z
             if vty == CLS and f.attr == "is_atom":
                 return "(snd %s)" % vt, BOOL
+            if is_dict(vty) and f.attr == "items":
+                return vt, TList(TProd(Z, vty[1]))
+            if is_dict(vty) and f.attr == "values":
+                return "(map snd %s)" % vt, TList(vty[1])
+            if is_dict(vty) and f.attr == "keys":
+                return "(map fst %s)" % vt, TList(Z)
             raise Unsupported("method call `%s`" % key)
         if not isinstance(f, ast.Name):
             raise Unsupported("call `%s`" % key)
         name, args = f.id, node.args
         if name in env:
             raise Unsupported("call of a local name `%s`" % key)
-        if self.rec and name == self.rec[0]:
-            if len(args) != len(self.rec[3]):
-                raise Unsupported("recursive call with wrong arity `%s`" % key)
-            parts = []
-            for a, want in zip(args, self.rec[3]):
-                t, ty = self.expr(a, env, narrowed)
-                if ty != want:
-                    raise Unsupported("recursive call argument `%s` has type %s, expected %s" % (src(a), ty, want))
-                parts.append(t)
-            return "(%s %s)" % (self.rec[1], " ".join(parts)), TList(self.rec[2])
+        # itertools.product(*[r for ...]): first coordinate slowest
+        if name == "product" and len(args) == 1 and isinstance(args[0], ast.Starred):
+            t, ty = self.expr(args[0].value, env, narrowed)
+            if not (is_list(ty) and is_list(ty[1])) or ty[1] == EMPTY:
+                raise Unsupported("product(*..) of %s" % (ty,))
+            return "(py_product %s)" % t, ty
+        if any(isinstance(a, ast.Starred) for a in args):
+            raise Unsupported("starred argument in `%s`" % key)
+        if name == "bool" and len(args) == 1:
+            t, ty = self.expr(args[0], env, narrowed)
+            if ty == BOOL:
+                return t, BOOL
+            if is_list(ty) or is_dict(ty):
+                return "(py_nonempty %s)" % t, BOOL     # truthiness of a sequence / set / dict
+            raise Unsupported("bool() of %s in `%s`" % (ty, key))
+        if name == "set" and len(args) == 1:
+            t, ty = self.expr(args[0], env, narrowed)
+            if ty != TList(Z):
+                raise Unsupported("set() of %s in `%s`" % (ty, key))
+            return "(py_set_of %s)" % t, TList(Z)      # the distinct elements (first occurrences)
+        if name == "dict" and len(args) == 1:
+            t, ty = self.expr(args[0], env, narrowed)
+            if is_list(ty) and isinstance(ty[1], tuple) and ty[1][0] == "prod" and ty[1][1] == Z:
+                return "(py_dict_of %s)" % t, TDict(ty[1][2])
+            raise Unsupported("dict() of %s in `%s`" % (ty, key))
+        if name in ("min", "max") and len(args) == 1:
+            t, ty = self.expr(args[0], env, narrowed)
+            if ty == TList(Z):
+                # ValueError on an empty sequence in Python; 0 here (outside the preconditions)
+                return "(py_%s_list %s)" % (name, t), Z
+            if ty == TList(TList(Z)) and name == "max":
+                return "(py_max_lex %s)" % t, TList(Z)    # tuples compare lexicographically
+            raise Unsupported("%s() of %s in `%s`" % (name, ty, key))
         if name == "tuple" and len(args) == 1:
             t, ty = self.expr(args[0], env, narrowed)
             if not (isinstance(ty, tuple) and ty[0] == "list"):
@@ -394,6 +608,9 @@ class Tr:
                 body = self.as_bool(a.elt, env2, narrowed)
                 return "(%s (fun %s => %s) %s)" % ("forallb" if name == "all" else "existsb", pat, body, cur), BOOL
             t, ty = self.expr(a, env, narrowed)
+            if is_list(ty) and is_list(ty[1]) and ty != EMPTY:
+                # truthiness of the elements: a tuple is true iff it is non-empty
+                return "(%s py_nonempty %s)" % ("forallb" if name == "all" else "existsb", t), BOOL
             if ty != TList(BOOL):
                 raise Unsupported("%s() of %s" % (name, ty))
             return "(%s (fun b => b) %s)" % ("forallb" if name == "all" else "existsb", t), BOOL
@@ -425,7 +642,7 @@ class Tr:
         if name == "abs" and len(args) == 1:
             return "(Z.abs %s)" % self.as_int(args[0], env, narrowed), Z
         if name == "cast" and len(args) == 2:
-            if src(args[0]) != "Tuple[int, ...]":
+            if src(args[0]) not in ("Tuple[int, ...]", "Parameters"):     # Parameters = Tuple[int, ...]
                 raise Unsupported("cast to `%s`" % src(args[0]))
             t, ty = self.expr(args[1], env, narrowed)
             if ty == TList(TOpt(Z)):
@@ -479,6 +696,279 @@ class Tr:
             raise Unsupported("assignment of bare None")
         return s.targets[0].id, t, ty
 
+    # -------------------------------------------------------------- imperative blocks
+    # Straight-line code with (nested) `for` loops and `if`s that update local
+    # variables, lists (`xs[i] = e`, `xs[i] += e`) and dictionaries (`d[k] = e`):
+    # a loop becomes `fold_left` over the variables it assigns (which must exist
+    # before the loop); an `if` returns the variables either branch assigns.
+    # `assert c` accumulates into the flag ok_ (the function then returns an
+    # option: None = AssertionError).  `return` only as the last statement.
+    @staticmethod
+    def stored_names(stmts):
+        """names (re)bound by the statements, in order of first occurrence;
+        comprehension variables are local to their comprehension"""
+        out = []
+
+        def add(n):
+            if n not in out:
+                out.append(n)
+
+        def visit(n):
+            if isinstance(n, (ast.ListComp, ast.SetComp, ast.GeneratorExp, ast.DictComp, ast.Lambda)):
+                return
+            if isinstance(n, (ast.FunctionDef, ast.ClassDef, ast.AsyncFunctionDef, ast.While, ast.Try, ast.With,
+                              ast.Delete, ast.Global, ast.Nonlocal, ast.NamedExpr, ast.Import, ast.ImportFrom)):
+                raise Unsupported("statement/expression `%s`" % src(n).split("\n")[0])
+            if isinstance(n, ast.Name) and isinstance(n.ctx, ast.Store):
+                add(n.id)
+            if isinstance(n, ast.Subscript) and isinstance(n.ctx, ast.Store):
+                if not isinstance(n.value, ast.Name):
+                    raise Unsupported("assignment to `%s`" % src(n))
+                add(n.value.id)
+            if isinstance(n, ast.Attribute) and isinstance(n.ctx, ast.Store):
+                raise Unsupported("assignment to the attribute `%s`" % src(n))
+            if isinstance(n, ast.Assert):
+                add("ok_")
+            for c in ast.iter_child_nodes(n):
+                visit(c)
+
+        for s in stmts:
+            visit(s)
+        return out
+
+    @staticmethod
+    def loaded_names(nodes):
+        """names read by the nodes; variables of a comprehension / lambda are
+        local to it (its first iterable is evaluated outside)"""
+        out = set()
+
+        def visit(n, bound):
+            if isinstance(n, ast.Name):
+                if isinstance(n.ctx, ast.Load) and n.id not in bound:
+                    out.add(n.id)
+                return
+            if isinstance(n, (ast.ListComp, ast.SetComp, ast.GeneratorExp, ast.DictComp)):
+                b = set(bound)
+                for i, g in enumerate(n.generators):
+                    visit(g.iter, bound if i == 0 else b)
+                    b |= {x.id for x in ast.walk(g.target) if isinstance(x, ast.Name)}
+                    for c in g.ifs:
+                        visit(c, b)
+                for part in ([n.key, n.value] if isinstance(n, ast.DictComp) else [n.elt]):
+                    visit(part, b)
+                return
+            if isinstance(n, ast.Lambda):
+                b = set(bound) | {a.arg for a in n.args.args}
+                visit(n.body, b)
+                return
+            for c in ast.iter_child_nodes(n):
+                visit(c, bound)
+
+        for r in nodes:
+            visit(r, frozenset())
+        return out
+
+    @staticmethod
+    def drop_narrowed(narrowed, name):
+        keep = set()
+        for t in narrowed:
+            try:
+                names = {n.id for n in ast.walk(ast.parse(t, mode="eval")) if isinstance(n, ast.Name)}
+            except SyntaxError:
+                names = {name}
+            if name not in names:
+                keep.add(t)
+        return frozenset(keep)
+
+    @staticmethod
+    def state_pat(names, quote=True):
+        if len(names) == 1:
+            return names[0]
+        return ("'" if quote else "") + "(" + ", ".join(names) + ")"
+
+    def imp_store(self, target, value_text, value_ty, env, narrowed, aug=None):
+        """`target = value` / `target += value` -> (python name, gallina text of its new value, type)"""
+        if isinstance(target, ast.Name):
+            n = target.id
+            coq_name(n)
+            if aug is not None:
+                if n not in env or env[n][1] != Z or value_ty != Z:
+                    raise Unsupported("augmented assignment to `%s`" % n)
+                return n, "(%s %s %s)" % (env[n][0], aug, value_text), Z
+            if value_ty in (NONE, EMPTY):
+                raise Unsupported("assignment of a value of undetermined type to `%s`" % n)
+            if n in env and env[n][1] != value_ty:
+                raise Unsupported("`%s` changes type from %s to %s" % (n, env[n][1], value_ty))
+            return n, value_text, value_ty
+        if isinstance(target, ast.Subscript) and isinstance(target.value, ast.Name):
+            n = target.value.id
+            if n not in env:
+                raise Unsupported("unknown name `%s`" % n)
+            xs, ty = env[n]
+            if isinstance(target.slice, ast.Slice):
+                raise Unsupported("slice assignment")
+            idx = self.as_int(target.slice, env, narrowed)
+            if is_list(ty) and ty != EMPTY:
+                elem = ty[1]
+                if aug is not None:
+                    if elem != Z or value_ty != Z:
+                        raise Unsupported("augmented assignment to an element of %s" % (ty,))
+                    value_text = "((py_get 0 %s %s) %s %s)" % (xs, idx, aug, value_text)
+                elif elem == TOpt(Z) and value_ty == Z:
+                    value_text = "(Some %s)" % value_text
+                elif elem == TOpt(Z) and value_ty == NONE:
+                    value_text = "None"
+                elif elem != value_ty:
+                    raise Unsupported("`%s`: element type %s, value type %s" % (src(target), elem, value_ty))
+                return n, "(py_setitem %s %s %s)" % (xs, idx, value_text), ty
+            if is_dict(ty):
+                if aug is not None or ty[1] != value_ty:
+                    raise Unsupported("`%s`: value type %s, dictionary of %s" % (src(target), value_ty, ty[1]))
+                return n, "(py_dset %s %s %s)" % (xs, idx, value_text), ty
+            raise Unsupported("subscript assignment to %s" % (ty,))
+        raise Unsupported("assignment target `%s`" % src(target))
+
+    def imp_block(self, stmts, env, narrowed, end, depth):
+        """text of: run stmts, then `end(env, narrowed)`; `return e` is accepted only
+        as the very last statement at depth 0 (and is then the whole result)"""
+        if not stmts:
+            return end(env, narrowed)
+        s, rest = stmts[0], stmts[1:]
+        if _is_docstring(s):
+            return self.imp_block(rest, env, narrowed, end, depth)
+        if src(s) in self.skip:
+            self.skip[src(s)] += 1
+            return self.imp_block(rest, env, narrowed, end, depth)
+        if isinstance(s, ast.Return):
+            if depth != 0 or rest or s.value is None:
+                raise Unsupported("`return` other than `return e` as the last statement")
+            t, ty = self.expr(s.value, env, narrowed)
+            self.imp_ret = ty
+            if "ok_" in env:
+                return "(if ok_ then Some %s else None)" % t
+            return t
+        if isinstance(s, (ast.Assign, ast.AnnAssign, ast.AugAssign)):
+            if isinstance(s, ast.Assign):
+                if len(s.targets) != 1:
+                    raise Unsupported("multiple assignment targets")
+                target, value, aug = s.targets[0], s.value, None
+            elif isinstance(s, ast.AnnAssign):
+                if s.value is None or not s.simple:
+                    raise Unsupported("annotation without a simple assignment")
+                target, value, aug = s.target, s.value, None
+            else:
+                if not isinstance(s.op, (ast.Add, ast.Sub, ast.Mult)):
+                    raise Unsupported("augmented assignment operator in `%s`" % src(s))
+                target, value = s.target, s.value
+                aug = {ast.Add: "+", ast.Sub: "-", ast.Mult: "*"}[type(s.op)]
+            saved = self.none_elem
+            if isinstance(s, ast.AnnAssign):
+                a = src(s.annotation)
+                if a not in ANNOT:
+                    raise Unsupported("annotation `%s`" % a)
+                if is_list(ANNOT[a]) and isinstance(ANNOT[a][1], tuple) and ANNOT[a][1][0] == "option":
+                    self.none_elem = ANNOT[a][1]
+            try:
+                vt, vty = self.expr(value, env, narrowed)
+            finally:
+                self.none_elem = saved
+            if aug is not None and vty != Z:
+                vt = self.as_int(value, env, narrowed)
+                vty = Z
+            n, t, ty = self.imp_store(target, vt, vty, env, narrowed, aug)
+            if isinstance(s, ast.AnnAssign) and ANNOT[src(s.annotation)] != ty:
+                raise Unsupported("`%s` is annotated %s but has type %s" % (n, src(s.annotation), ty))
+            env2 = dict(env)
+            env2[n] = (coq_name(n), ty)
+            return "let %s := %s in\n  %s" % (coq_name(n), t, self.imp_block(rest, env2, self.drop_narrowed(narrowed, n), end, depth))
+        if isinstance(s, ast.Assert):
+            if s.msg is not None:
+                raise Unsupported("assert with message")
+            if "ok_" not in env:
+                raise Unsupported("assert in a target that does not declare assertions")
+            c = self.as_bool(s.test, env, narrowed)
+            nar = set(narrowed)
+            w = self.none_test(s.test)
+            if w is not None and not w[1]:
+                nar.add(w[0])       # after `assert X is not None`
+            return "let ok_ := (ok_ && %s) in\n  %s" % (c, self.imp_block(rest, env, frozenset(nar), end, depth))
+        if isinstance(s, (ast.For, ast.If)):
+            after = self.loaded_names(rest)
+            if isinstance(s, ast.For):
+                if s.orelse:
+                    raise Unsupported("for/else")
+                for sub in ast.walk(s):
+                    if isinstance(sub, (ast.Return, ast.Break, ast.Continue, ast.Yield, ast.YieldFrom)):
+                        raise Unsupported("return/break/continue/yield inside a for loop")
+                targets = [n.id for n in ast.walk(s.target) if isinstance(n, ast.Name)]
+                for tn in targets:
+                    if tn in env and tn != "_":
+                        raise Unsupported("loop variable `%s` rebinds an existing name" % tn)
+                stored = [n for n in self.stored_names(s.body) if n not in targets]
+                for tn in targets:
+                    if tn in self.stored_names(s.body):
+                        raise Unsupported("loop variable `%s` is assigned in the loop body" % tn)
+                fresh = [n for n in stored if n not in env] + targets
+            else:
+                for sub in ast.walk(s):
+                    if isinstance(sub, (ast.Return, ast.Break, ast.Continue, ast.Yield, ast.YieldFrom)):
+                        raise Unsupported("return/break/continue/yield inside an if")
+                stored = self.stored_names(list(s.body) + list(s.orelse))
+                fresh = [n for n in stored if n not in env]
+            # canonical order: first assignment, the assertion flag last (so that moving an
+            # assert within the body does not change the shape of the state)
+            carried = [n for n in stored if n in env and n != "ok_"] + [n for n in stored if n == "ok_" and n in env]
+            bad = [n for n in fresh if n in after and n != "_"]
+            if bad:
+                raise Unsupported("names %s first bound inside a loop/branch are used after it" % sorted(bad))
+            if not carried:
+                raise Unsupported("loop/branch without effect on existing variables: `%s`" % src(s).split("\n")[0])
+            for n in carried:
+                if n in self.params_ro:
+                    raise Unsupported("the parameter `%s` is assigned" % n)
+            names = [env[n][0] for n in carried]
+            tuple_ty = " * ".join(ty_str(env[n][1]) for n in carried)
+            st_text = self.state_pat(names, quote=False)
+
+            def fin(e, _nar, carried=carried):
+                for n in carried:
+                    if e[n][1] != env[n][1]:
+                        raise Unsupported("`%s` changes type inside a loop/branch" % n)
+                return self.state_pat([e[n][0] for n in carried], quote=False)
+
+            if isinstance(s, ast.For):
+                it, ity = self.expr(s.iter, env, narrowed)
+                if not is_list(ity) or ity == EMPTY:
+                    raise Unsupported("for over %s" % (ity,))
+                pat, env2 = self.binder(s.target, ity[1], env)
+                nar2 = narrowed
+                for n in carried + targets:
+                    nar2 = self.drop_narrowed(nar2, n)
+                body = self.imp_block(list(s.body), env2, nar2, fin, depth + 1)
+                if pat.startswith("'"):
+                    xbind = "(x_ : %s) => let %s := x_ in" % (ty_str(ity[1]), pat)
+                else:
+                    xbind = "%s =>" % pat
+                if len(carried) == 1:
+                    fn_text = "(fun (%s : %s) %s\n    %s)" % (names[0], tuple_ty, xbind, body)
+                else:
+                    fn_text = "(fun (st_ : %s) %s let '%s := st_ in\n    %s)" % (tuple_ty, xbind, st_text, body)
+                val = "(fold_left %s\n    %s %s)" % (fn_text, it, st_text)
+            else:
+                c = self.as_bool(s.test, env, narrowed)
+                nb, no = set(narrowed), set(narrowed)
+                w = self.none_test(s.test)
+                if w is not None:
+                    (no if w[1] else nb).add(w[0])
+                bt = self.imp_block(list(s.body), env, frozenset(nb), fin, depth + 1)
+                ot = self.imp_block(list(s.orelse), env, frozenset(no), fin, depth + 1)
+                val = "(if %s then %s else %s)" % (c, bt, ot)
+            nar3 = narrowed
+            for n in carried:
+                nar3 = self.drop_narrowed(nar3, n)
+            return "let %s := %s in\n  %s" % (self.state_pat(names), val, self.imp_block(rest, env, nar3, end, depth))
+        raise Unsupported("statement `%s`" % src(s).split("\n")[0])
+
     def gen_block(self, stmts, env, elem_ty, in_loop=False):
         """generator body -> Gallina list expression of element type elem_ty"""
         if not stmts:
@@ -509,8 +999,24 @@ class Tr:
                 raise Unsupported("assert with message")
             c = self.as_bool(s.test, env, frozenset())
             return "(py_assert %s %s)" % (c, self.gen_block(rest, env, elem_ty, in_loop))
-        if isinstance(s, ast.Assign):
+        if isinstance(s, ast.Assign) and len(s.targets) == 1 and isinstance(s.targets[0], ast.Subscript):
+            # d[k] = e / xs[i] = e on a local: a new binding of the same name
+            if in_loop:
+                raise Unsupported("element assignment inside a loop of a generator")
+            vt, vty = self.expr(s.value, env)
+            n, t, ty = self.imp_store(s.targets[0], vt, vty, env, frozenset())
+            env2 = dict(env)
+            env2[n] = (coq_name(n), ty)
+            return "(let %s := %s in\n    %s)" % (coq_name(n), t, self.gen_block(rest, env2, elem_ty, in_loop))
+        if isinstance(s, (ast.Assign, ast.AnnAssign)):
+            if isinstance(s, ast.AnnAssign):
+                # the annotation is documentation only: the type is inferred
+                if s.value is None or not s.simple or not isinstance(s.target, ast.Name):
+                    raise Unsupported("annotated statement `%s`" % src(s).split("\n")[0])
+                s = ast.Assign(targets=[s.target], value=s.value)
             n, t, ty = self.assign(s, env)
+            if in_loop and n in env:
+                raise Unsupported("a loop body of a generator rebinds `%s`" % n)
             env2 = dict(env)
             env2[n] = (coq_name(n), ty)
             return "(let %s := %s in\n    %s)" % (coq_name(n), t, self.gen_block(rest, env2, elem_ty, in_loop))
@@ -531,9 +1037,7 @@ class Tr:
             used_after = {n.id for r in rest for n in ast.walk(r) if isinstance(n, ast.Name) and isinstance(n.ctx, ast.Load)}
             if assigned & used_after:
                 raise Unsupported("loop variables %s are used after the loop" % sorted(assigned & used_after))
-            it, ity = self.expr(s.iter, env)
-            if not (isinstance(ity, tuple) and ity[0] == "list"):
-                raise Unsupported("for over %s" % (ity,))
+            it, ity = self.iterable(s.iter, env)
             pat, env2 = self.binder(s.target, ity[1], env)
             body = self.gen_block(list(s.body), env2, elem_ty, True)
             tail = self.gen_block(rest, env, elem_ty, in_loop)
@@ -571,8 +1075,8 @@ def _is_docstring(s):
 
 
 # ------------------------------------------------------------------ locating
-def find_def(tree, qual):
-    """Locate a (possibly nested in classes) function by qualified name."""
+def find_def(tree, qual, want_class=False):
+    """Locate a (possibly nested in classes) function (or class) by qualified name."""
     parts = qual.split(".")
     body = tree.body
     node = None
@@ -585,16 +1089,23 @@ def find_def(tree, qual):
             raise Unsupported("%d definitions named %r while resolving %s" % (len(found), p, qual))
         node = found[0]
         last = i == len(parts) - 1
-        if last != isinstance(node, ast.FunctionDef):
+        if last and want_class:
+            if not isinstance(node, ast.ClassDef):
+                raise Unsupported("%s: %r is not a class" % (qual, p))
+        elif last != isinstance(node, ast.FunctionDef):
             raise Unsupported("%s: %r is not a %s" % (qual, p, "function" if last else "class"))
         body = node.body
     return node
 
 
-def arg_names(fn):
+def arg_names(fn, kwarg=None):
+    """positional parameter names; `**kwarg` is accepted only when the target declares it
+    (it is then a dictionary parameter)"""
     a = fn.args
-    if a.vararg or a.kwarg or a.kwonlyargs or a.posonlyargs:
+    if a.vararg or a.kwonlyargs or a.posonlyargs:
         raise Unsupported("unsupported parameter kinds in %s" % fn.name)
+    if (a.kwarg.arg if a.kwarg else None) != kwarg:
+        raise Unsupported("%s: **%s, expected %s" % (fn.name, a.kwarg.arg if a.kwarg else None, kwarg))
     return [x.arg for x in a.args]
 
 
@@ -632,7 +1143,8 @@ def t_function(spec, fn, text):
     function parameters), body is assignments then `return e`."""
     if arg_names(fn) != spec["args"]:
         raise Unsupported("signature changed: %s" % arg_names(fn))
-    tr = Tr(bind={k: (v[0], v[1]) for k, v in spec.get("bind", {}).items()}, none_elem=spec.get("none_elem"))
+    tr = Tr(bind={k: (v[0], v[1]) for k, v in spec.get("bind", {}).items()}, none_elem=spec.get("none_elem"),
+            chained=spec.get("chained", False), strings=spec.get("strings"))
     env = {p: (coq_name(p), ty) for p, ty in spec.get("env", {}).items()}
     skip = {s: 0 for s in spec.get("skip", [])}
     body, ty = tr.fun_block(list(fn.body), env, skip)
@@ -847,10 +1359,250 @@ def t_loopfun(spec, fn, text):
     return out
 
 
+def t_imperative(spec, fn, text):
+    """function whose body is an imperative block (Tr.imp_block): assignments to
+    locals, list / dictionary element updates, nested `for` loops, `if`s,
+    `assert`s, and a final `return e`.  With assertions (spec `asserts`) the
+    result is an option: None = AssertionError."""
+    if arg_names(fn, spec.get("kwarg")) != spec["args"]:
+        raise Unsupported("signature changed: %s" % arg_names(fn, spec.get("kwarg")))
+    tr = Tr(bind={k: (v[0], v[1]) for k, v in spec.get("bind", {}).items()}, none_elem=spec.get("none_elem"),
+            chained=spec.get("chained", False), strings=spec.get("strings"))
+    env = {p: (coq_name(p), ty) for p, ty in spec.get("env", {}).items()}
+    tr.params_ro = set(env)
+    tr.skip = {s: 0 for s in spec.get("skip", [])}
+    n_assert = 0
+    for st in fn.body:
+        if src(st) in tr.skip:
+            continue
+        n_assert += sum(1 for n in ast.walk(st) if isinstance(n, ast.Assert))
+    if bool(n_assert) != bool(spec.get("asserts", False)):
+        raise Unsupported("%d assert statements, target declared %s assertions" % (
+            n_assert, "with" if spec.get("asserts") else "without"))
+    if n_assert:
+        env["ok_"] = ("ok_", BOOL)
+
+    def fell_off(_e, _n):
+        raise Unsupported("function body falls off the end (returns None)")
+
+    body = tr.imp_block(list(fn.body), env, frozenset(), fell_off, 0)
+    for k in spec.get("bind", {}):
+        if k not in tr.used:
+            raise Unsupported("expected expression `%s` no longer occurs in %s" % (k, spec["qual"]))
+    for s_, cnt in tr.skip.items():
+        if cnt != 1:
+            raise Unsupported("expected glue statement not found exactly once: %s" % s_.split("\n")[0])
+    if tr.imp_ret != spec["ret"]:
+        raise Unsupported("result type %s, expected %s" % (tr.imp_ret, spec["ret"]))
+    rty = TOpt(spec["ret"]) if n_assert else spec["ret"]
+    if n_assert:
+        body = "let ok_ := true in\n  " + body
+    params = " ".join("(%s : %s)" % (n, ty_str(t)) for n, t in spec["params"])
+    return header(spec, text) + "Definition %s %s : %s :=\n  %s.\n" % (spec["name"], params, ty_str(rty), body)
+
+
+def _walk_stmts(body, path=()):
+    """(statement, enclosing statement kinds, the block holding it, index) in source order"""
+    for i, st in enumerate(body):
+        yield st, path, body, i
+        for field in ("body", "orelse", "finalbody"):
+            sub = getattr(st, field, None)
+            if isinstance(sub, list) and sub and isinstance(sub[0], ast.stmt):
+                yield from _walk_stmts(sub, path + (type(st).__name__,))
+        for h in getattr(st, "handlers", []) or []:
+            yield from _walk_stmts(h.body, path + (type(st).__name__,))
+
+
+LOCATED = {}    # name of a t_local definition -> {"expr": source text, "lets": [(name, source text)]} (self-tests)
+
+
+def t_local(spec, fn, text):
+    """ONE expression inside a (stateful) method, located structurally:
+         ("call_arg", f)            the argument of the unique statement `f(<arg>)`
+         ("if_test", s)             the test of the unique `if` whose body starts with statement s
+         ("assign", x, i, n)        the value of the i-th of exactly n assignments `x = ...`
+       `path` lists the kinds of the enclosing compound statements (so wrapping the
+       statement in a new condition or loop is noticed); locals the expression uses
+       must be assigned exactly once, earlier in the same block (`n_lets` of them).  What is
+       tied is this expression as a function of the values it reads (parameters,
+       bound attribute reads); the control flow around it is tied by the
+       correspondence check, not by the translator."""
+    if arg_names(fn) != spec["args"]:
+        raise Unsupported("signature changed: %s" % arg_names(fn))
+    loc = spec["locate"]
+    found = []
+    for st, path, block, idx in _walk_stmts(fn.body):
+        if loc[0] == "call_arg":
+            if (isinstance(st, ast.Expr) and isinstance(st.value, ast.Call) and src(st.value.func) == loc[1]):
+                c = st.value
+                if len(c.args) != 1 or c.keywords or isinstance(c.args[0], ast.Starred):
+                    raise Unsupported("`%s` is not called with one argument" % loc[1])
+                found.append((c.args[0], path, block, idx))
+        elif loc[0] == "if_test":
+            if isinstance(st, ast.If) and st.body and src(st.body[0]) == loc[1]:
+                found.append((st.test, path, block, idx))
+        elif loc[0] == "assign":
+            if isinstance(st, (ast.Assign, ast.AnnAssign)):
+                tg = st.targets if isinstance(st, ast.Assign) else [st.target]
+                if len(tg) == 1 and isinstance(tg[0], ast.Name) and tg[0].id == loc[1] and st.value is not None:
+                    found.append((st.value, path, block, idx))
+        else:
+            raise Unsupported("unknown locator %r" % (loc,))
+    want = loc[3] if loc[0] == "assign" else 1
+    if len(found) != want:
+        raise Unsupported("%s: expected %d statements matching %r, found %d" % (spec["qual"], want, loc, len(found)))
+    node, path, block, idx = found[loc[2] if loc[0] == "assign" else 0]
+    if list(path) != list(spec.get("path", [])):
+        raise Unsupported("%s: the located statement is nested in %s, expected %s" % (spec["qual"], list(path), spec.get("path", [])))
+    if loc[0] == "assign":
+        # every other store to the name must be one of the counted assignments
+        stores = sum(1 for n in ast.walk(fn) if isinstance(n, ast.Name) and isinstance(n.ctx, ast.Store) and n.id == loc[1])
+        if stores != want:
+            raise Unsupported("`%s` is also bound by other statements" % loc[1])
+    # statements the typing of the parameters relies on (e.g. the None test that makes an
+    # Optional an int): each must stand, verbatim, earlier in the same block
+    for need in spec.get("requires_before", []):
+        if sum(1 for b in block[:idx] if src(b) == need) != 1:
+            raise Unsupported("%s: expected statement `%s` before the located one" % (spec["qual"], need.split("\n")[0]))
+    tr = Tr(bind={k: (v[0], v[1]) for k, v in spec.get("bind", {}).items()}, none_elem=spec.get("none_elem"),
+            chained=spec.get("chained", False), strings=spec.get("strings"))
+    env = {p: (coq_name(p), ty) for p, ty in spec.get("env", {}).items()}
+    # locals the expression reads: each must be assigned exactly once in the function, by a
+    # simple statement earlier in the same block; they become `let`s (found by use, not by
+    # name, so renaming such a local is harmless)
+    lets = []
+    let_src = []
+
+    def add_lets(expr_node, depth=0):
+        if depth > 8:
+            raise Unsupported("locals depend on each other too deeply")
+        for name in sorted(Tr.loaded_names([expr_node])):
+            if name in env or name in [n for n, _ in lets]:
+                continue
+            defs = [b for b in block[:idx] if isinstance(b, ast.Assign) and len(b.targets) == 1
+                    and isinstance(b.targets[0], ast.Name) and b.targets[0].id == name]
+            stores = sum(1 for n in ast.walk(fn) if isinstance(n, ast.Name) and isinstance(n.ctx, ast.Store) and n.id == name)
+            if not defs and not stores:
+                continue                      # not a local (a builtin such as max/any, or unknown: expr() decides)
+            if len(defs) != 1 or stores != 1:
+                raise Unsupported("local `%s` is not assigned exactly once, before the located statement in its block" % name)
+            add_lets(defs[0].value, depth + 1)
+            t, ty = tr.expr(defs[0].value, env)
+            if ty in (NONE, EMPTY):
+                raise Unsupported("local `%s` has an undetermined type" % name)
+            env[name] = (coq_name(name), ty)
+            lets.append((coq_name(name), t))
+            let_src.append((name, src(defs[0].value)))
+
+    add_lets(node)
+    if len(lets) != spec.get("n_lets", 0):
+        raise Unsupported("%s: the located expression uses %d locals, expected %d" % (spec["qual"], len(lets), spec.get("n_lets", 0)))
+    # names the expression reads must be parameters, lets or comprehension variables
+    t, ty = (tr.as_bool(node, env, frozenset()), BOOL) if spec["ret"] == BOOL else tr.expr(node, env)
+    if ty != spec["ret"]:
+        raise Unsupported("result type %s, expected %s" % (ty, spec["ret"]))
+    for k in spec.get("bind", {}):
+        if k not in tr.used:
+            raise Unsupported("expected expression `%s` no longer occurs in the located expression of %s" % (k, spec["qual"]))
+    body = t
+    for n, lt in reversed(lets):
+        body = "let %s := %s in\n  %s" % (n, lt, body)
+    LOCATED[spec["name"]] = {"expr": src(node), "lets": let_src}
+    params = " ".join("(%s : %s)" % (n, ty_str(pt)) for n, pt in spec["params"])
+    note = "(* located expression: `%s` *)\n" % src(node).replace("(*", "( *").replace("*)", "* )")
+    return header(spec, text) + note + "Definition %s %s : %s :=\n  %s.\n" % (spec["name"], params, ty_str(ty), body)
+
+
+def t_classconst(spec, fn, text):
+    """a class-level constant `NAME = (A.X, A.Y, ...)` whose elements are bound to
+    integers by the spec (the model's encoding of the enumeration members)"""
+    # `fn` is the ClassDef here
+    found = [st for st in fn.body if isinstance(st, ast.Assign) and len(st.targets) == 1
+             and isinstance(st.targets[0], ast.Name) and st.targets[0].id == spec["const"]]
+    if len(found) != 1:
+        raise Unsupported("%d class-level assignments of %s" % (len(found), spec["const"]))
+    stores = sum(1 for n in ast.walk(fn) if isinstance(n, (ast.Name, ast.Attribute)) and isinstance(n.ctx, ast.Store)
+                 and (getattr(n, "id", None) == spec["const"] or getattr(n, "attr", None) == spec["const"]))
+    if stores != 1:
+        raise Unsupported("%s is assigned %d times in the class" % (spec["const"], stores))
+    tr = Tr(bind={k: (v[0], v[1]) for k, v in spec.get("bind", {}).items()})
+    t, ty = tr.expr(found[0].value, {})
+    if ty != spec["ret"]:
+        raise Unsupported("type %s, expected %s" % (ty, spec["ret"]))
+    return header(spec, ast.get_source_segment(spec["_source"], found[0]) or "") + \
+        "Definition %s : %s :=\n  %s.\n" % (spec["name"], ty_str(ty), t)
+
+
+def t_closure_generator(spec, fn, text):
+    """a generator method that defines ONE nested recursive generator (a closure
+    over attributes of self only) and yields from it:
+
+        def outer(self, n, **parameters):
+            x = <bound call>
+            def helper(a, **kw): ... yield ... / for c in helper(a[1:], **d): yield ...
+            if c:
+                ...; yield from helper(...)
+
+    -> `<name>_helper_fuel` (Fixpoint on fuel, the bound attributes of self as leading
+    parameters), `<name>_helper` (fuel from the spec) and `<name>`."""
+    if arg_names(fn, spec.get("kwarg")) != spec["args"]:
+        raise Unsupported("signature changed: %s" % arg_names(fn, spec.get("kwarg")))
+    body = [st for st in fn.body if not _is_docstring(st)]
+    inner = [st for st in body if isinstance(st, ast.FunctionDef)]
+    if len(inner) != 1 or inner[0].name != spec["helper"]:
+        raise Unsupported("expected exactly one nested function %s" % spec["helper"])
+    h = inner[0]
+    if any(isinstance(n, (ast.FunctionDef, ast.Lambda, ast.ClassDef, ast.Nonlocal, ast.Global)) for st in h.body for n in ast.walk(st)):
+        raise Unsupported("nested definitions inside %s" % h.name)
+    if h.decorator_list or h.args.defaults or h.args.kw_defaults:
+        raise Unsupported("decorators / default arguments on %s" % h.name)
+    hk = spec.get("helper_kwarg")
+    if arg_names(h, hk) != spec["helper_args"]:
+        raise Unsupported("signature of %s changed: %s" % (h.name, arg_names(h, hk)))
+    hnames = spec["helper_args"] + ([hk] if hk else [])
+    htys = [spec["helper_types"][n] for n in hnames]
+    elem = spec["elem"]
+    closure = spec["closure"]          # [(gallina name, type)] : attributes of self the helper reads, via bind
+    cl_names = " ".join(n for n, _ in closure)
+    cl_params = " ".join("(%s : %s)" % (n, ty_str(t)) for n, t in closure)
+    bind = {k: (v[0], v[1]) for k, v in spec.get("bind", {}).items()}
+    hbind = {k: v for k, v in bind.items() if v[0] in [n for n, _ in closure]}
+    fname = spec["name"] + "_helper_fuel"
+    # ---- the helper
+    trh = Tr(bind=hbind, rec=(h.name, "%s fuel' %s" % (fname, cl_names), elem, htys, bool(hk)),
+             chained=spec.get("chained", False), strings=spec.get("strings"))
+    if not any(isinstance(n, (ast.Yield, ast.YieldFrom)) for n in ast.walk(h)):
+        raise Unsupported("%s is not a generator" % h.name)
+    henv = {n: (coq_name(n), t) for n, t in zip(hnames, htys)}
+    hbody = trh.gen_block(list(h.body), henv, elem)
+    hparams = " ".join("(%s : %s)" % (coq_name(n), ty_str(t)) for n, t in zip(hnames, htys))
+    out = header(spec, text)
+    out += "(* fuel counts nested calls of %s; the wrapper supplies %s *)\n" % (h.name, spec["fuel"])
+    out += "Fixpoint %s (fuel : nat) %s %s : %s :=\n  match fuel with\n  | O => []\n  | S fuel' =>\n  %s\n  end.\n\n" % (
+        fname, cl_params, hparams, ty_str(TList(elem)), hbody)
+    out += "Definition %s_helper %s %s : %s :=\n  %s (%s) %s %s.\n\n" % (
+        spec["name"], cl_params, hparams, ty_str(TList(elem)), fname, spec["fuel"], cl_names, " ".join(hnames))
+    # ---- the outer generator
+    tro = Tr(bind=bind, rec=(h.name, "%s_helper %s" % (spec["name"], cl_names), elem, htys, bool(hk)),
+             chained=spec.get("chained", False), strings=spec.get("strings"))
+    oenv = {p: (coq_name(p), ty) for p, ty in spec.get("env", {}).items()}
+    obody = tro.gen_block([st for st in body if st is not h], oenv, elem)
+    for k in bind:
+        if k not in tro.used and k not in trh.used:
+            raise Unsupported("expected expression `%s` no longer occurs in %s" % (k, spec["qual"]))
+    params = " ".join("(%s : %s)" % (n, ty_str(t)) for n, t in spec["params"])
+    out += "Definition %s %s : %s :=\n  %s.\n" % (spec["name"], params, ty_str(TList(elem)), obody)
+    return out
+
+
 ANNOT = {
     "int": Z,
     "Tuple[int, ...]": TList(Z),
     "Tuple[Optional[int], ...]": TList(TOpt(Z)),
+    "List[Optional[int]]": TList(TOpt(Z)),
+    "List[int]": TList(Z),
+    "Parameters": TList(Z),
+    "Tuple[Tuple[int, ...], ...]": TList(TList(Z)),
 }
 
 
@@ -968,12 +1720,217 @@ TARGETS = {
         args=["n", "k", "min_sizes", "max_sizes"],
         returns="Iterator[Tuple[int, ...]]", elem=TList(Z), fuel="Z.to_nat k + 1",
     ),
+    # ---- the three param_map variants (parameter maps of the constructors)
+    "constructor_param_map": dict(
+        name="constructor_param_map", out="ConstructorParamMap", kind=t_imperative,
+        file="comb_spec_searcher/strategies/constructor/base.py", qual="Constructor.param_map",
+        decorators=["staticmethod"], args=["child_pos_to_parent_pos", "num_parent_params", "param"],
+        params=[("child_pos_to_parent_pos", TList(TList(Z))), ("num_parent_params", Z), ("param", TList(Z))],
+        env={"child_pos_to_parent_pos": TList(TList(Z)), "num_parent_params": Z, "param": TList(Z)},
+        ret=TList(Z),
+    ),
+    "union_param_map": dict(
+        name="union_param_map", out="UnionParamMap", kind=t_imperative,
+        file="comb_spec_searcher/strategies/constructor/disjoint.py", qual="DisjointUnion.param_map",
+        decorators=["staticmethod"], args=["child_pos_to_parent_pos", "num_parent_params", "param"],
+        params=[("child_pos_to_parent_pos", TList(TList(Z))), ("num_parent_params", Z), ("param", TList(Z))],
+        env={"child_pos_to_parent_pos": TList(TList(Z)), "num_parent_params": Z, "param": TList(Z)},
+        asserts=True, ret=TList(Z),
+    ),
+    "quotient_param_map": dict(
+        name="quotient_param_map", out="QuotientParamMap", kind=t_imperative,
+        file="comb_spec_searcher/strategies/constructor/cartesian.py", qual="Quotient.param_map",
+        decorators=["staticmethod"], args=["child_pos_to_parent_pos", "num_parent_params", "param"],
+        params=[("child_pos_to_parent_pos", TList(TList(Z))), ("num_parent_params", Z), ("param", TList(Z))],
+        env={"child_pos_to_parent_pos": TList(TList(Z)), "num_parent_params": Z, "param": TList(Z)},
+        asserts=True, ret=TList(Z),
+    ),
+    # ---- class_queue.py (C16)
+    "queue_can_do_inferral": dict(
+        name="can_do_inferral", out="QueueCanDoInferral", kind=t_function,
+        file="comb_spec_searcher/class_queue.py", qual="DefaultQueue.can_do_inferral",
+        args=["self", "label"],
+        params=[("inferral_strategies", TList(Z)), ("inferral_expanded", TList(Z)), ("label", Z)],
+        env={"label": Z},
+        bind={"self.inferral_strategies": ("inferral_strategies", TList(Z)),
+              "self._inferral_expanded": ("inferral_expanded", TList(Z))},
+        ret=BOOL,
+    ),
+    "queue_can_do_initial": dict(
+        name="can_do_initial", out="QueueCanDoInitial", kind=t_function,
+        file="comb_spec_searcher/class_queue.py", qual="DefaultQueue.can_do_initial",
+        args=["self", "label"],
+        params=[("initial_strategies", TList(Z)), ("initial_expanded", TList(Z)), ("label", Z)],
+        env={"label": Z},
+        bind={"self.initial_strategies": ("initial_strategies", TList(Z)),
+              "self._initial_expanded": ("initial_expanded", TList(Z))},
+        ret=BOOL,
+    ),
+    "queue_change_level_order": dict(
+        name="change_level_order", out="QueueChangeLevelOrder", kind=t_local,
+        file="comb_spec_searcher/class_queue.py", qual="DefaultQueue._change_level",
+        args=["self"], locate=("call_arg", "self.curr_level[0].extend"), path=[],
+        params=[("next_level", TDict(Z))],
+        bind={"self.next_level": ("next_level", TDict(Z))},
+        ret=TList(Z),
+    ),
+    # ---- tree_searcher.py (C05)
+    "prune_rule_test": dict(
+        name="prune_rule_test", out="TreePruneRuleTest", kind=t_local,
+        file="comb_spec_searcher/tree_searcher.py", qual="prune",
+        args=["rdict"], locate=("if_test", "rule_set.remove(rule)"), path=["While", "For", "For"],
+        params=[("rdict", TDict(TList(TList(Z)))), ("rule", TList(Z))],
+        env={"rdict": TDict(TList(TList(Z))), "rule": TList(Z)},
+        ret=BOOL,
+    ),
+    "iterative_prune_rule_test": dict(
+        name="iterative_prune_rule_test", out="TreeIterativePruneRuleTest", kind=t_local,
+        file="comb_spec_searcher/tree_searcher.py", qual="iterative_prune",
+        args=["rules_dict", "root"], locate=("if_test", "changed = True"), path=["While", "For", "For"],
+        params=[("verified_labels", TList(Z)), ("rule", TList(Z))],
+        env={"verified_labels": TList(Z), "rule": TList(Z)},
+        ret=BOOL,
+    ),
+    "iterative_finder_rule_test": dict(
+        name="iterative_finder_rule_test", out="TreeIterativeFinderRuleTest", kind=t_local,
+        file="comb_spec_searcher/tree_searcher.py", qual="iterative_proof_tree_finder",
+        args=["rules_dict", "root"], locate=("if_test", "changed = True"), path=["While", "For", "For"],
+        params=[("verified_labels", TList(Z)), ("rule", TList(Z))],
+        env={"verified_labels": TList(Z), "rule": TList(Z)},
+        ret=BOOL,
+    ),
+    # ---- equiv_db.py (C06)
+    "equiv_heaviest": dict(
+        name="equiv_heaviest", out="EquivHeaviest", kind=t_local,
+        file="comb_spec_searcher/equiv_db.py", qual="EquivalenceDB._set_equivalent",
+        args=["self", "label", "other_label"], locate=("assign", "heaviest", 0, 1), path=[], n_lets=1,
+        params=[("weights", TDict(Z)), ("root_label", Z), ("root_other", Z)],
+        bind={"self.weights": ("weights", TDict(Z)), "self[label]": ("root_label", Z),
+              "self[other_label]": ("root_other", Z)},
+        ret=Z,
+    ),
+    # ---- rule_db/forest.py, the gap bookkeeping of the table method (C03) and the bucket order (C11)
+    "increase_value_hold": dict(
+        name="increase_value_hold", out="ForestIncreaseValueHold", kind=t_local,
+        file="comb_spec_searcher/rule_db/forest.py", qual="TableMethod._increase_value",
+        args=["self", "comb_class", "rule_idx"],
+        locate=("if_test", "self._rule_holding_extra_terms.add(rule_idx)"), path=[],
+        # current_value is the finite value of the class (the statement before returns on None)
+        params=[("current_value", Z), ("gap_end", Z)], env={"current_value": Z},
+        requires_before=["current_value = self._function[comb_class]", "if current_value is None:\n    return"],
+        bind={"self._current_gap[1]": ("gap_end", Z)},
+        ret=BOOL,
+    ),
+    "correct_gap_new_gap": dict(
+        name="correct_gap_new_gap", out="ForestCorrectGapNewGap", kind=t_local,
+        file="comb_spec_searcher/rule_db/forest.py", qual="TableMethod._correct_gap",
+        args=["self"], locate=("assign", "new_gap", 0, 1), path=[], n_lets=1,
+        params=[("gap_start", Z), ("gap_size", Z)],
+        bind={"self._function.preimage_gap(self._gap_size)": ("gap_start", Z), "self._gap_size": ("gap_size", Z)},
+        ret=TList(Z),
+    ),
+    "correct_gap_release": dict(
+        name="correct_gap_release", out="ForestCorrectGapRelease", kind=t_local,
+        file="comb_spec_searcher/rule_db/forest.py", qual="TableMethod._correct_gap",
+        args=["self"],
+        locate=("if_test", "self._processing_queue.extend(self._rule_holding_extra_terms)"), path=[],
+        params=[("new_gap", TList(Z)), ("gap_end", Z)], env={"new_gap": TList(Z)},
+        bind={"self._current_gap[1]": ("gap_end", Z)},
+        ret=BOOL,
+    ),
+    "minimize_order": dict(
+        name="minimize_order", out="ForestMinimizeOrder", kind=t_classconst,
+        file="comb_spec_searcher/rule_db/forest.py", qual="ForestRuleExtractor", const="MINIMIZE_ORDER",
+        # the model's (and the harness's) numbering of the buckets: Forest/Extractor.v bkey
+        bind={"RuleBucket.REVERSE": ("0", Z), "RuleBucket.NORMAL": ("1", Z),
+              "RuleBucket.EQUIV": ("2", Z), "RuleBucket.VERIFICATION": ("3", Z)},
+        ret=TList(Z),
+    ),
+    # ---- CartesianProduct.reliance_profile and _valid_compositions (C08): dictionaries keyed by
+    #      parameter names; names are integers in the models, "n" is 0
+    "product_reliance_profile": dict(
+        name="product_reliance_profile", out="ProductRelianceProfile", kind=t_imperative,
+        file="comb_spec_searcher/strategies/constructor/cartesian.py", qual="CartesianProduct.reliance_profile",
+        args=["self", "n"], kwarg="parameters",
+        params=[("minimum_sizes", TDict(Z)), ("min_child_sizes", TList(TDict(Z))), ("max_child_sizes", TList(TDict(Z))),
+                ("n", Z), ("parameters", TDict(Z))],
+        env={"n": Z, "parameters": TDict(Z)},
+        bind={"self.minimum_sizes": ("minimum_sizes", TDict(Z)),
+              "self.min_child_sizes": ("min_child_sizes", TList(TDict(Z))),
+              "self.max_child_sizes": ("max_child_sizes", TList(TDict(Z)))},
+        # a sanity assertion on the key sets (sets of strings): not translated
+        skip=["assert all((set(['n', *parameters]) == set(min_child_sizes) for min_child_sizes in self.min_child_sizes))"],
+        strings={"n": 0}, ret=TList(TDict(TList(Z))),
+    ),
+    "product_valid_compositions": dict(
+        name="valid_compositions", out="ProductValidCompositions", kind=t_closure_generator,
+        file="comb_spec_searcher/strategies/constructor/cartesian.py", qual="CartesianProduct._valid_compositions",
+        args=["self", "n"], kwarg="parameters",
+        helper="_helper", helper_args=["minmaxes"], helper_kwarg="parameters",
+        helper_types={"minmaxes": TList(TDict(TList(Z))), "parameters": TDict(Z)},
+        closure=[("parent_parameters", TList(Z))],
+        params=[("parent_parameters", TList(Z)), ("reliance_profile", TList(TDict(TList(Z)))), ("n", Z), ("parameters", TDict(Z))],
+        env={"n": Z, "parameters": TDict(Z)},
+        bind={"self.parent_parameters": ("parent_parameters", TList(Z)),
+              "self.reliance_profile(n, **parameters)": ("reliance_profile", TList(TDict(TList(Z))))},
+        elem=TList(TDict(Z)), fuel="S (length minmaxes)", strings={"n": 0}, chained=True,
+    ),
+    # ---- strategies/rule.py EquivalencePathRule.constructor: the composed dictionary (C09)
+    "path_dict_initial": dict(
+        name="path_dict_initial", out="PathDictInitial", kind=t_local,
+        file="comb_spec_searcher/strategies/rule.py", qual="EquivalencePathRule.constructor",
+        decorators=["property"], args=["self"], locate=("assign", "extra_parameters", 0, 2), path=["If"],
+        params=[("first_names", TList(Z))],
+        bind={"self.comb_class.extra_parameters": ("first_names", TList(Z))},
+        ret=TDict(Z),
+    ),
+    "path_dict_compose": dict(
+        name="path_dict_compose", out="PathDictCompose", kind=t_local,
+        file="comb_spec_searcher/strategies/rule.py", qual="EquivalencePathRule.constructor",
+        decorators=["property"], args=["self"], locate=("assign", "extra_parameters", 1, 2), path=["If", "For"],
+        params=[("extra_parameters", TDict(Z)), ("rules_parameters", TDict(Z))],
+        env={"extra_parameters": TDict(Z), "rules_parameters": TDict(Z)},
+        ret=TDict(Z),
+    ),
+    "path_dict_invert": dict(
+        name="path_dict_invert", out="PathDictInvert", kind=t_local,
+        file="comb_spec_searcher/strategies/rule.py", qual="EquivalencePathRule.constructor",
+        decorators=["property"], args=["self"], locate=("assign", "rules_parameters", 1, 2), path=["If", "For", "If"],
+        params=[("rules_parameters", TDict(Z))], env={"rules_parameters": TDict(Z)},
+        ret=TDict(Z),
+    ),
+    "path_dict_duplicates": dict(
+        name="path_dict_duplicates", out="PathDictDuplicates", kind=t_local,
+        file="comb_spec_searcher/strategies/rule.py", qual="EquivalencePathRule.constructor",
+        decorators=["property"], args=["self"],
+        locate=("if_test", "raise NotImplementedError('Complement rules with duplicate parameters are not supported in equivalence path rules')"),
+        path=["If", "For", "If"],
+        params=[("rules_parameters", TDict(Z))], env={"rules_parameters": TDict(Z)},
+        ret=BOOL,
+    ),
+    # ---- the composition bounds CartesianProduct.get_terms / get_sub_objects hand to utils.compositions
+    "product_min_sizes": dict(
+        name="product_min_sizes", out="ProductMinSizes", kind=t_function,
+        file="comb_spec_searcher/strategies/constructor/cartesian.py", qual="CartesianProduct.min_sizes",
+        decorators=["property"], args=["self"],
+        params=[("min_child_sizes", TList(TDict(Z)))],
+        bind={"self.min_child_sizes": ("min_child_sizes", TList(TDict(Z)))},
+        strings={"n": 0}, ret=TList(Z),
+    ),
+    "product_max_sizes": dict(
+        name="product_max_sizes", out="ProductMaxSizes", kind=t_function,
+        file="comb_spec_searcher/strategies/constructor/cartesian.py", qual="CartesianProduct.max_sizes",
+        decorators=["property"], args=["self"],
+        params=[("max_child_sizes", TList(TDict(Z)))],
+        bind={"self.max_child_sizes": ("max_child_sizes", TList(TDict(Z)))},
+        strings={"n": 0}, ret=TList(TOpt(Z)),
+    ),
 }
 
 PRELUDE = """(* GENERATED by harness/translate.py (fixed text) — the Python primitives the
    generated definitions are written in.  DO NOT EDIT. *)
 From Coq Require Import ZArith List Bool.
-From CSS Require Export Base.PyList.
+From CSS Require Export Base.PyList Gen.PreludeSeq.
 Import ListNotations.
 Open Scope Z_scope.
 
@@ -1006,6 +1963,74 @@ Definition py_unopt (o : option Z) : Z := match o with Some v => v | None => 0 e
 (* `assert c` inside a generator: a failing assertion ends the output here
    (Python raises AssertionError instead; see harness/translate.py) *)
 Definition py_assert {A} (c : bool) (rest : list A) : list A := if c then rest else [].
+
+(* x in xs (tuple / list / set of integers, observed through membership) *)
+Definition py_in (x : Z) (l : list Z) : bool := existsb (Z.eqb x) l.
+(* bool(xs): truthiness of a sequence, set or dictionary *)
+Definition py_nonempty {A} (l : list A) : bool := match l with [] => false | _ :: _ => true end.
+
+(* dictionaries with integer keys: association lists in insertion order.
+   d[k] (KeyError -> the default, outside every theorem's precondition), k in d,
+   d[k] = v (a known key keeps its position), {k: v for ...} / dict(pairs) *)
+Fixpoint py_dget {V} (d : V) (m : list (Z * V)) (k : Z) : V :=
+  match m with
+  | [] => d
+  | (k', v) :: t => if k' =? k then v else py_dget d t k
+  end.
+Fixpoint py_dfind {V} (m : list (Z * V)) (k : Z) : option V :=
+  match m with
+  | [] => None
+  | (k', v) :: t => if k' =? k then Some v else py_dfind t k
+  end.
+Definition py_dmem {V} (m : list (Z * V)) (k : Z) : bool := existsb (fun kv : Z * V => fst kv =? k) m.
+Fixpoint py_dset {V} (m : list (Z * V)) (k : Z) (v : V) : list (Z * V) :=
+  match m with
+  | [] => [(k, v)]
+  | (k', v') :: t => if k' =? k then (k', v) :: t else (k', v') :: py_dset t k v
+  end.
+Definition py_dict_of {V} (l : list (Z * V)) : list (Z * V) :=
+  fold_left (fun m (kv : Z * V) => py_dset m (fst kv) (snd kv)) l [].
+
+(* xs[k] = v on a list is py_setitem of Gen/PreludeSeq.v (re-exported above) *)
+
+(* itertools.product of the sequences rs: first coordinate slowest *)
+Fixpoint py_product {A} (rs : list (list A)) : list (list A) :=
+  match rs with
+  | [] => [[]]
+  | r :: rs' => flat_map (fun x => map (cons x) (py_product rs')) r
+  end.
+
+(* sorted(xs, key=f) with an integer key: stable *)
+Fixpoint py_insert_by {A} (key : A -> Z) (x : A) (s : list A) : list A :=
+  match s with
+  | [] => [x]
+  | y :: r => if key y <? key x then y :: py_insert_by key x r else x :: y :: r
+  end.
+Fixpoint py_sorted_by {A} (key : A -> Z) (l : list A) : list A :=
+  match l with
+  | [] => []
+  | x :: t => py_insert_by key x (py_sorted_by key t)
+  end.
+
+(* min(xs) / max(xs) of integers (ValueError on an empty sequence -> 0) *)
+Definition py_max_list (l : list Z) : Z := match l with [] => 0 | x :: t => fold_left Z.max t x end.
+Definition py_min_list (l : list Z) : Z := match l with [] => 0 | x :: t => fold_left Z.min t x end.
+(* max of tuples of integers: lexicographic, the first maximal element wins *)
+Fixpoint py_lex_ltb (a b : list Z) : bool :=
+  match a, b with
+  | [], [] => false
+  | [], _ :: _ => true
+  | _ :: _, [] => false
+  | x :: a', y :: b' => (x <? y) || ((x =? y) && py_lex_ltb a' b')
+  end.
+(* set(xs): the distinct elements, observed through membership and len *)
+Fixpoint py_set_of (l : list Z) : list Z :=
+  match l with
+  | [] => []
+  | x :: t => if existsb (Z.eqb x) t then py_set_of t else x :: py_set_of t
+  end.
+Definition py_max_lex (l : list (list Z)) : list Z :=
+  match l with [] => [] | x :: t => fold_left (fun m y => if py_lex_ltb m y then y else m) t x end.
 """
 
 
@@ -1035,7 +2060,8 @@ def translate_target(name, source=None):
         with open(path) as f:
             source = f.read()
     tree = ast.parse(source)
-    fn = find_def(tree, spec["qual"])
+    fn = find_def(tree, spec["qual"], want_class=spec["kind"] is t_classconst)
+    spec = dict(spec, _source=source)
     if [src(d) for d in fn.decorator_list] != spec.get("decorators", []):
         raise Unsupported("%s: decorators %s, expected %s" % (
             spec["qual"], [src(d) for d in fn.decorator_list], spec.get("decorators", [])))
